@@ -188,6 +188,20 @@ Proof. split; simpl; rewrite strip_is_lstrip_rstrip; reflexivity. Qed.
 Theorem replace_first_spec s a b : sf QReplaceFirst (sstr s) [sstr a; sstr b] =
   Ok (sstr (match find_first a s [] with Some (x, y) => x ++ b ++ y | None => s end)).
 Proof. reflexivity. Qed.
+Lemma br_is_replace s : flat_map (fun c => if N.eqb c 10 then k_br else [c]) s = replace_str [10%N] k_br s.
+Proof.
+  unfold replace_str. induction s as [|c t IH]; [reflexivity|].
+  cbn [flat_map replace_go prefixb length Nat.sub]. rewrite IH.
+  replace (N.eqb 10 c && true) with (N.eqb c 10) by (rewrite andb_true_r; apply N.eqb_sym).
+  destruct (N.eqb c 10); reflexivity.
+Qed.
+(* newline_to_br: every line feed becomes "<br />" followed by that line feed; equivalently the lines joined by "<br />\n" *)
+Theorem newline_to_br_spec s :
+  sf QNewlineToBr (sstr s) [] = Ok (sstr (replace_str [10%N] k_br s)) /\
+  replace_str [10%N] k_br s = join_str k_br (split_str [10%N] s).
+Proof.
+  split; [rewrite <- br_is_replace; reflexivity | apply replace_via_split; discriminate].
+Qed.
 Theorem strip_newlines_spec s : sf QStripNewlines (sstr s) [] = Ok (sstr (filter (fun c => negb (N.eqb c 10 || N.eqb c 13)) s)).
 Proof. reflexivity. Qed.
 Theorem case_filters_map_the_oracle s :
